@@ -59,7 +59,9 @@ def run(ch, build):
     scripts = []
     for c in cmds:
         r = rng.random()
-        scripts.append(["ok"] if r < 0.6 else rng.choice([["busy", "ok"], ["garbage", "ok"], ["badsig", "c3", "ok"], ["lost"], ["truncbody"]]))
+        scripts.append(["ok"] if r < 0.6 else rng.choice([["busy", "ok"], ["garbage", "ok"], ["badsig", "c3", "ok"], ["lost"], ["truncbody"],
+                                                            ["extend:1", "ok"], ["extend:5", "busy", "ok"], ["cutsig:1", "ok"], ["cutsig:4", "ok"],
+                                                            ["cutsig:12", "ok"], ["cutsig:16", "c3", "ok"]]))
     scns, cur = [], None
     k = 0
     for c, sc in zip(cmds, scripts):
